@@ -288,6 +288,7 @@ type replica struct {
 	c         *Chain
 	pending   map[int]*prevote
 	contracts []gethcommon.Address
+	pcContracts []int // indices of contracts whose runtime ends with a precompile call
 	shapes    [][2]int // (slots, targets) of contracts
 	funtokens map[int]gethcommon.Address
 	tfDenoms  []string
@@ -324,7 +325,7 @@ func (r *replica) ethTx(i int, to *gethcommon.Address, value *big.Int, input []b
 
 // straight-line runtime: s SSTOREs of (calldata word 1 + j) into slots 1..s, then m CALLs sending 1 unibi
 // (10^12 wei) to the addresses (calldata word 0 + i): every call creates m fresh accounts in ONE commit.
-func multiRuntime(s, m int) []byte {
+func multiRuntime(s, m int, pc bool) []byte {
 	var b []byte
 	for j := 0; j < s; j++ {
 		b = append(b, 0x60, byte(j), 0x60, 0x20, 0x35, 0x01, 0x60, byte(j+1), 0x55)
@@ -333,11 +334,20 @@ func multiRuntime(s, m int) []byte {
 		b = append(b, 0x60, 0, 0x60, 0, 0x60, 0, 0x60, 0, 0x64, 0xE8, 0xD4, 0xA5, 0x10, 0x00)
 		b = append(b, 0x60, byte(i), 0x60, 0x00, 0x35, 0x01, 0x5a, 0xf1, 0x50)
 	}
+	if pc {
+		// copy calldata[64:] to memory and CALL the FunToken precompile (0x…0800) with it; the result flag goes to slot 99.
+		// The precompile call makes the StateDB flush everything dirtied so far (the m fresh accounts) in an
+		// INTERMEDIATE commit before the final one.
+		b = append(b, 0x36, 0x60, 0x40, 0x90, 0x03) // size = CALLDATASIZE - 64
+		b = append(b, 0x80, 0x60, 0x40, 0x60, 0x00, 0x37) // CALLDATACOPY(0, 64, size)
+		b = append(b, 0x60, 0x00, 0x60, 0x00, 0x82, 0x60, 0x00, 0x60, 0x00, 0x61, 0x08, 0x00, 0x5a, 0xf1) // CALL(gas, 0x800, 0, 0, size, 0, 0)
+		b = append(b, 0x60, 0x63, 0x55, 0x50) // SSTORE(99, ok); POP size
+	}
 	return append(b, 0x00)
 }
 
-func multiInit(s, m int) []byte {
-	rt := multiRuntime(s, m)
+func multiInit(s, m int, pc bool) []byte {
+	rt := multiRuntime(s, m, pc)
 	n := len(rt)
 	init := []byte{0x61, byte(n >> 8), byte(n), 0x80, 0x61, 0x00, 0x0d, 0x60, 0x00, 0x39, 0x60, 0x00, 0xf3}
 	return append(init, rt...)
@@ -387,10 +397,49 @@ func (r *replica) apply(op c01Op) []abci.ResponseDeliverTx {
 		s, m := op.B, op.C
 		i := op.A % nEth
 		nonce := r.ethNonce(i)
-		res := r.ethTx(i, nil, nil, multiInit(s, m), 3_000_000)
+		pc := len(op.L) > 0 && op.L[0] == 1
+		res := r.ethTx(i, nil, nil, multiInit(s, m, pc), 3_000_000)
 		if res.Code == 0 {
 			r.contracts = append(r.contracts, crypto.CreateAddress(w.eths[i].EthAddr, nonce))
 			r.shapes = append(r.shapes, [2]int{s, m})
+			if pc {
+				r.pcContracts = append(r.pcContracts, len(r.contracts)-1)
+			}
+		}
+		return one(res)
+	case "callpc": // ONE tx: pay m fresh accounts, THEN a successful Nibiru precompile call
+		if len(r.pcContracts) == 0 {
+			return none
+		}
+		k := r.pcContracts[op.B%len(r.pcContracts)]
+		to := r.contracts[k]
+		m := r.shapes[k][1]
+		i := op.A % nEth
+		base := new(big.Int).SetBytes(gethcommon.BytesToAddress(freshAddr(op.C).Bytes()).Bytes())
+		input := append(gethcommon.LeftPadBytes(base.Bytes(), 32), word(uint64(op.A))...)
+		var pcIn []byte
+		var err error
+		sel := 0
+		if len(op.L) > 0 {
+			sel = op.L[0]
+		}
+		switch sel % 3 {
+		case 0:
+			pcIn, err = embeds.SmartContract_FunToken.ABI.Pack("whoAmI", w.eths[i].EthAddr.Hex())
+		case 1:
+			pcIn, err = embeds.SmartContract_FunToken.ABI.Pack("bankBalance", w.eths[i].EthAddr, "unibi")
+		default:
+			pcIn, err = embeds.SmartContract_FunToken.ABI.Pack("whoAmI", accAddr(w.users[0]).String())
+		}
+		if err != nil {
+			panic(err)
+		}
+		input = append(input, pcIn...)
+		val := new(big.Int).Mul(big.NewInt(int64(m)), big.NewInt(1_000_000_000_000))
+		res := r.ethTx(i, &to, val, input, 4_000_000)
+		if os.Getenv("C01_DEBUG") != "" {
+			ok := r.c.App.EvmKeeper.GetState(r.c.Ctx(), to, gethcommon.BigToHash(big.NewInt(99)))
+			fmt.Printf("DEBUG callpc code=%d precompile_ok=%s m=%d\n", res.Code, ok.Big().String(), m)
 		}
 		return one(res)
 	case "call":
@@ -799,6 +848,15 @@ func genDiff(r *Rng, opener int) c01Input {
 			// historic failure shape: several sudo contracts in one edit
 			blk.Ops = append(blk.Ops, c01Op{Kind: "sudo", A: 1, L: []int{4 * b, 4*b + 1, 4*b + 2, 4*b + 3}})
 		}
+		if opener == 3 && b == 0 {
+			blk.Ops = append(blk.Ops, c01Op{Kind: "deploy", A: 0, B: 2, C: 10, L: []int{1}})
+		}
+		if opener == 3 && b > 0 && b < 6 {
+			blk.Ops = append(blk.Ops, c01Op{Kind: "callpc", A: b, B: 0, C: next() * 16, L: []int{b}})
+		}
+		if opener == 0 && b == 0 && r.Chance(2, 3) {
+			blk.Ops = append(blk.Ops, c01Op{Kind: "deploy", A: r.Intn(nEth), B: r.Range(1, 3), C: r.Range(8, 12), L: []int{1}})
+		}
 		if opener == 2 && b == 0 {
 			blk.Ops = append(blk.Ops, c01Op{Kind: "deploy", A: 0, B: 4, C: 4})
 		}
@@ -806,6 +864,14 @@ func genDiff(r *Rng, opener int) c01Input {
 			blk.Ops = append(blk.Ops, c01Op{Kind: "call", A: b, B: 0, C: next() * 16})
 		}
 		for i := 0; i < n; i++ {
+			switch r.Pick(3, 2, 3, 4, 2, 2, 3, 5, 2, 2, 1, 2, 2, 2, 4, 1) {
+			case 14:
+				blk.Ops = append(blk.Ops, c01Op{Kind: "callpc", A: r.Intn(200), B: r.Intn(4), C: next() * 16, L: []int{r.Intn(3)}})
+				continue
+			case 15:
+				blk.Ops = append(blk.Ops, c01Op{Kind: "deploy", A: r.Intn(nEth), B: r.Range(1, 3), C: r.Range(2, 12), L: []int{1}})
+				continue
+			}
 			switch r.Pick(3, 2, 3, 4, 2, 2, 3, 5, 2, 2, 1, 2, 2, 2) {
 			case 0:
 				blk.Ops = append(blk.Ops, c01Op{Kind: "bank", A: r.Intn(nUsers), B: r.Pick(1, 1)*next() + r.Intn(nUsers)*0, C: 1 + r.Intn(1000)})
@@ -1125,7 +1191,7 @@ func TestC01(t *testing.T) {
 	rng := NewRng(cfg.Seed)
 	for i := 0; i < cfg.N; i++ {
 		opener := 0
-		if i < 2 {
+		if i < 3 {
 			opener = i + 1
 		}
 		in := genDiff(rng.Fork(), opener)
